@@ -10,6 +10,7 @@ C12 — memory safety and totality, the part a Lean model can carry (DESIGN §5 
 -/
 import H3Model.Coord
 import H3Model.Index
+import H3Model.Disk
 import H3Proofs.Props.C01
 
 namespace H3.C12
@@ -111,5 +112,39 @@ theorem ipow_no_overflow : ∀ n : Fin 16, ipow 7 n.val < 2 ^ 63 ∧ 5 * (ipow 7
 /-- no undefined shift, out-of-range table read, signed overflow or clz(0) in isValidCell (re-export) -/
 theorem isValidCell_no_ub (h : BitVec 64) : H3.Gen.Bits.isValidCell_defined h = true :=
   H3.C01.isValidCell_defined_all h
+
+end H3.C12
+
+namespace H3.C12
+open H3
+
+/-! ### documented codes of the traversal entry points (model: Neighbor.lean, Disk.lean) -/
+
+theorem h3NeighborRotations_badDir (h : BitVec 64) (d r : Nat) (hd : d ≥ 7) :
+    h3NeighborRotations h d r = .error .failed := by
+  simp [h3NeighborRotations, hd]
+
+theorem h3NeighborRotations_badBaseCell (h : BitVec 64) (d r : Nat) (hd : d < 7) (hb : getBaseCell h ≥ 122) :
+    h3NeighborRotations h d r = .error .cellInvalid := by
+  have : ¬ d ≥ 7 := by omega
+  simp [h3NeighborRotations, this, hb]
+
+theorem gridDiskDistancesUnsafe_domain (h : BitVec 64) (k : Int) (hk : k < 0) :
+    (gridDiskDistancesUnsafe h k).1 = some .domain := by
+  simp [gridDiskDistancesUnsafe, hk]
+
+theorem gridRingUnsafe_domain (h : BitVec 64) (k : Int) (hk : k < 0) :
+    (gridRingUnsafe h k).1 = some .domain ∧ (gridRingUnsafe h k).2 = #[] := by
+  simp [gridRingUnsafe, hk]
+
+theorem gridDiskDistances_domain (h : BitVec 64) (k : Int) (hk : k < 0) :
+    gridDiskDistances h k = .error .domain := by
+  have h1 : gridDiskDistancesUnsafe h k = (some .domain, #[], #[]) := by simp [gridDiskDistancesUnsafe, hk]
+  have h2 : maxGridDiskSize k = .error .domain := by simp [maxGridDiskSize, hk]
+  simp [gridDiskDistances, h1, h2]
+
+theorem getPentagons_resDomain (r : Int) (h : r < 0 ∨ r > 15) : getPentagons r = .error .resDomain := by
+  have : (decide (r < 0) || decide (r > 15)) = true := by rcases h with h | h <;> simp [h]
+  simp [getPentagons, this]
 
 end H3.C12
